@@ -1,13 +1,19 @@
-"""C22 -- exit codes reflect only unsuppressed failures.   Functions under contract:
-   sqlfluff.core.linter.linted_dir:     LintedDir.stats
+"""C22 -- exit codes reflect only unsuppressed failures.   Functions under contract (pyvc, symbolic):
+   sqlfluff.core.linter.linted_dir:     LintedDir.stats, LintedDir.add#counters (REGION: the counter updates)
+   sqlfluff.core.linter.linted_dir:     LintedDir.discard_fixes_for_lint_errors_in_files_with_tmp_or_prs_errors (contracts/c18.py, C18+C22)
    sqlfluff.core.linter.linting_result: LintingResult.stats          (lint's exit code = fail iff some counted violation)
+   sqlfluff.core.linter.linting_result: LintingResult.count_tmp_prs_errors (contracts/c18.py), LintingResult.discard_fixes_...#counters
    sqlfluff.cli.commands:               PathAndUserErrorHandler.__exit__ (usage / config errors exit 2)
    sqlfluff.cli.commands:               _handle_unparsable, _stdin_fix   (fix/format exit codes and stdin output)
+   sqlfluff.cli.commands:               lint#lint-run, lint#exit-code-c22                       (REGIONS of the click command `lint`)
+   sqlfluff.cli.commands:               _paths_fix#lint-run-and-gate, #gate-and-count, #unfixable, #report-and-exit   (REGIONS: together
+                                        every statement of _paths_fix after its first status message)
 UI objects (formatter, click, reporting dicts) are sinks: no effect on the tracked state.
-Bounded (labelled): the CLI exit-code matrix on real files (every combination of violation kind x noqa x warning x
-fixable x template/parse error x --fix-even-unparsable x --nofail) against the property's formula.
+Bounded (labelled, contracts/c22_bounded.py): the CLI exit-code matrix on real files (violation kind x noqa / ignore / warnings x
+lint / fix / format x path / directory / two paths / stdin x --nofail / --FIX-EVEN-UNPARSABLE / --check) against the property's
+formula computed independently, and the usage / configuration error matrix (exit 2).
 """
-from pyvc.dsl import contract, external, spec, lemma, implies, iff, inline, ref_class, rec_class
+from pyvc.dsl import contract, external, spec, lemma, implies, iff, inline, ref_class, rec_class, was
 from pyvc.ty import INT, BOOL, Text, TList, TTuple, TOpt, TRec, SINK, TOpaque
 from pyvc import stmts as _stmts
 
@@ -20,10 +26,14 @@ PROP = "C22"
 # known finding, so discharged != obligations.  Everything else listed in the evidence is discharged by z3.
 LEVEL = "other"
 EXPLANATION = ("Contract-based deductive verification (pyvc: VCs from the real source, z3) of the exit-code building blocks: "
-               "LintedDir.stats, LintingResult.stats, PathAndUserErrorHandler.__exit__ (both variants), _handle_unparsable, "
-               "LintedDir.discard_fixes_..., _stdin_fix.  All obligations are discharged except the exit-code clause of "
-               "_stdin_fix on two paths, which is a genuine, recorded defect (known_findings.json): that is why this is not "
-               "labelled `proof`.  Counts: coverage.obligations / coverage.discharged / coverage.failed_obligations.")
+               "LintedDir.stats, LintedDir.add (counter updates), LintingResult.stats, PathAndUserErrorHandler.__exit__ (both variants), "
+               "_handle_unparsable, LintedDir.discard_fixes_... and LintingResult's loop over it, _stdin_fix, and -- as region contracts "
+               "(statement ranges extracted mechanically from the long click command bodies on every run) -- the exit tail and the lint "
+               "run of `lint` and every statement of _paths_fix after its first message (four adjacent / overlapping ranges).  All "
+               "symbolic obligations are discharged except the exit-code clause of _stdin_fix, which is a genuine, recorded defect "
+               "(known_findings.json): that is why this is not labelled `proof`.  The end-to-end behaviour of the real commands is "
+               "additionally checked by two labelled BOUNDED matrices (not counted as proved).  Counts: coverage.obligations / "
+               "coverage.discharged / coverage.failed_obligations.")
 
 LintedDir2 = ref_class("sqlfluff.core.linter.linted_dir:LintedDir", _num_files=INT, _num_clean=INT, _num_unclean=INT,
                        _num_violations=INT)
@@ -61,9 +71,14 @@ def any_counted_violation(r):
     return any(r.paths[i]._num_violations > 0 for i in range(len(r.paths)))
 
 
+Stats = TRec("StatsDict", {"files": INT, "clean": INT, "unclean": INT, "violations": INT, "avg per file": SINK, "unclean rate": SINK,
+                           "clean files": INT, "unclean files": INT, "exit code": INT, "status": SINK}, is_dict=True)
+
+
 @contract("sqlfluff.core.linter.linting_result:LintingResult.stats", PROP)
 class result_stats:
     types = {"self": LintingResult, "fail_code": INT, "success_code": INT, "counts": Counts}
+    ret = Stats       # (needed by the caller under contract: lint's exit tail)
     ghost_out = {"all_stats": SINK}
 
     def requires(self, fail_code, success_code):
@@ -117,17 +132,30 @@ class discard_fixes:
     """(verified separately below for LintedDir) after the call no lint violation of a file with a template/parse error
     keeps a fix -- so nothing in such a file is fixable any more"""
     types = {"self": LintingResult}
-    modifies = ["heap:LintingResult.g_fixable_lint", "heap:LintingResult.g_unfixable_lint"]
+    modifies = ["heap:LintingResult.g_fixable_lint", "heap:LintingResult.g_unfixable_lint", "heap:LintedDir.num_unfixable_lint_errors"]
 
     def ensures(self, old):
         return (implies(single_file(self) and has_tmp_prs(self), self.g_fixable_lint == 0)
                 and implies(not has_tmp_prs(self), self.g_fixable_lint == old.self.g_fixable_lint
                             and self.g_unfixable_lint == old.self.g_unfixable_lint)
-                and self.g_fixable_lint >= 0 and self.g_unfixable_lint >= old.self.g_unfixable_lint)
+                and self.g_fixable_lint >= 0 and self.g_unfixable_lint >= old.self.g_unfixable_lint
+                # the per-directory counters of unfixable lint violations only grow (proved for the loop over the verified
+                # LintedDir method: `...#counters` below)
+                and unfixable_only_grows(self, old))
 
 
 LintingResultG = ref_class("sqlfluff.core.linter.linting_result:LintingResult",
                            g_fixable_lint=INT, g_unfixable_lint=INT, g_templater=INT)
+
+
+@spec
+def unfixable_only_grows(r, old):
+    return all(r.paths[i].num_unfixable_lint_errors >= was(old, r.paths[i]).num_unfixable_lint_errors for i in range(len(r.paths)))
+
+
+@spec
+def unfixable_unchanged(r, old):
+    return all(r.paths[i].num_unfixable_lint_errors == was(old, r.paths[i]).num_unfixable_lint_errors for i in range(len(r.paths)))
 
 
 @spec
@@ -178,7 +206,7 @@ class handle_unparsable:
              "tmp_prs_errors_by_file": SINK, "file_errors": SINK, "record_errors": SINK, "error": SINK,
              "code": SINK, "description": SINK, "line_no": SINK, "line_pos": SINK}
     ret = INT
-    modifies = ["heap:LintingResult.g_fixable_lint", "heap:LintingResult.g_unfixable_lint"]
+    modifies = ["heap:LintingResult.g_fixable_lint", "heap:LintingResult.g_unfixable_lint", "heap:LintedDir.num_unfixable_lint_errors"]
 
     def requires(fix_even_unparsable, initial_exit_code, linting_result, formatter):
         return counters_ok(linting_result) and linting_result.g_fixable_lint >= 0 and linting_result.g_unfixable_lint >= 0
@@ -187,7 +215,8 @@ class handle_unparsable:
         return (
             # --fix-even-unparsable: nothing is filtered, the exit code is passed through
             (result == initial_exit_code and linting_result.g_fixable_lint == old.linting_result.g_fixable_lint
-             and linting_result.g_unfixable_lint == old.linting_result.g_unfixable_lint)
+             and linting_result.g_unfixable_lint == old.linting_result.g_unfixable_lint
+             and unfixable_unchanged(linting_result, old))
             if fix_even_unparsable else
             # otherwise: 1 exactly when an UNSUPPRESSED template/parse error blocks fixing ...
             (result == (1 if has_live_tmp_prs(linting_result) else 0)
@@ -195,6 +224,7 @@ class handle_unparsable:
              and implies(single_file(linting_result) and has_tmp_prs(linting_result), linting_result.g_fixable_lint == 0)
              # discarding fixes only ever turns fixable violations into unfixable ones
              and linting_result.g_unfixable_lint >= old.linting_result.g_unfixable_lint
+             and unfixable_only_grows(linting_result, old)
              and implies(not has_tmp_prs(linting_result),
                          linting_result.g_fixable_lint == old.linting_result.g_fixable_lint
                          and linting_result.g_unfixable_lint == old.linting_result.g_unfixable_lint)))
@@ -243,8 +273,429 @@ class stdin_fix:
 
 
 TRUSTED = ["ghost counters g_fixable_lint / g_unfixable_lint / g_templater stand for LintingResult.num_violations(...) of live "
-           "lint violations with / without fixes and live templater errors; their link to the violation lists is "
+           "lint violations with / without fixes and live templater errors; LintedFile.g_counted / g_unfixable_lint / g_live_tmp_prs / "
+           "g_unfiltered_tmp_prs for the four LintedFile.num_violations queries of LintedDir.add; their link to the violation lists is "
            "LintedFile.get_violations (C20) and is exercised by the bounded CLI matrix",
-           "LintedDir._num_violations sums LintedFile.num_violations() over added files (LintedDir.add)"]
-NOT_COVERED = ["the full bodies of the click commands lint / fix / format (option handling, output): only their exit-code "
-               "building blocks are under contract; the matrix below runs the real commands"]
+           "LintingResult.discard_fixes_... at its call site: assumed contract over the ghost counters (its clause about the "
+           "per-directory counter num_unfixable_lint_errors is proved: `...#counters`)",
+           "region contracts: the statements before a verified range establish the declared types / preconditions of its free "
+           "variables (lint#exit-code-c22 and _paths_fix#report-and-exit: no file skipped for its size -- that rule is C34's; counters "
+           "non-negative: sums of list lengths, LintedDir.add#counters)",
+           "the with-statement hook for PathAndUserErrorHandler models its __exit__ by the two verified contracts of that method "
+           "(SQLFluffUserError -> SystemExit(2), anything else passes through)",
+           "Linter.lint_paths / lint_string_wrapped: havoc (any result with non-negative counters, or SQLFluffUserError)"]
+NOT_COVERED = ["the statements of the click commands lint / fix / cli_format BEFORE their lint run (option handling, get_config's own "
+               "sys.exit(2) paths, output set-up) and lint's output formatting between the lint run and the exit tail: bounded matrices only",
+               "do_fixes / persist_changes (writes: C18) -- assumed to leave the counters alone",
+               "LintedDir.add above its counter updates (record building), LintedFile.get_violations / num_violations (C20)"]
+
+
+# ------------------------------------------------------------------ the exit tails of the click commands (region contracts)
+# `lint` and `_paths_fix` are long click command bodies; only their last statements decide the exit code.  pyvc extracts the
+# statement range mechanically from the real function on every run and verifies it as a function of the locals it reads; the
+# declared types of those locals are ASSUMPTIONS about what the statements before the range establish (TRUSTED).
+ref_class("sqlfluff.core.linter.linting_result:LintingResult", files_skipped=INT)
+
+
+@contract("sqlfluff.cli.commands:lint#exit-code-c22", PROP)
+class lint_exit_code:
+    region = ("if not nofail:", None)
+    region_params = ["nofail", "non_human_output", "formatter", "result", "config"]
+    types = {"nofail": BOOL, "non_human_output": BOOL, "formatter": SINK, "result": LintingResult, "config": FluffConfig,
+             "exit_code": INT}
+    raises = {"SystemExit": None}
+
+    def requires(nofail, non_human_output, formatter, result, config):
+        # no skipped files (the large_file_skip_fail rule is C34's: contracts/c34.py `lint#exit-code`)
+        return result.files_skipped == 0 and all(result.paths[i]._num_violations >= 0 for i in range(len(result.paths)))
+
+    def hint_on_raise(nofail, non_human_output, result, config, exc_class, exc_value):
+        # lint exits 1 exactly when some file has a counted (unsuppressed, non-warning) violation and 0 otherwise;
+        # with --nofail it exits 0 whatever was found
+        return exc_class == "SystemExit" and exc_value == (0 if nofail else (1 if any_counted_violation(result) else 0))
+
+    def ensures(nofail, non_human_output, formatter, result, config):
+        return False          # the tail always exits
+
+
+# ------------------------------------------------------------------ _paths_fix: the exit code of `fix <paths>` / `format <paths>`
+from .c18 import Record, VDict  # noqa: E402
+
+ref_class("sqlfluff.core.linter.linter:Linter", config=FluffConfig)
+ref_class("sqlfluff.core.linter.linting_result:LintingResult", total_time=SINK)
+_stmts.SINK_FUNCTIONS.update({"click.utils:echo", "click.termui:getchar"})
+
+
+@external("sqlfluff.core.linter.linting_result:LintingResult.as_records", PROP)
+class result_as_records:
+    """the serialised violation records (sorted copy of the per-directory record lists): reporting only"""
+    types = {"self": LintingResult}
+    ret = TList(Record)
+
+    def ensures(self, result):
+        return True
+
+
+@external("sqlfluff.core.linter.linting_result:LintingResult.timing_summary", PROP)
+class result_timing_summary:
+    types = {"self": LintingResult}
+    ret = SINK
+
+    def ensures(self, result):
+        return True
+
+
+@external("sqlfluff.core.linter.linting_result:LintingResult.persist_timing_records", PROP)
+class persist_timing_records:
+    """writes a CSV of timings: no effect on the result object"""
+    types = {"self": LintingResult, "filename": Text}
+
+    def ensures(self, filename):
+        return True
+
+
+@external("sqlfluff.cli.commands:do_fixes", PROP)
+class do_fixes_ext:
+    """writes the fixed files (C18's subject: LintedFile.persist_tree); no effect on the counters the exit code reads"""
+    types = {"result": LintingResult, "formatter": SINK, "fixed_file_suffix": TOpt(Text)}
+    params = ["result", "formatter", "fixed_file_suffix"]      # (a real parameter is called `result`)
+    ret = BOOL
+
+    def ensures(formatter=None, fixed_file_suffix=""):
+        return True
+
+
+@spec
+def unfixable_remains(r):
+    """some unsuppressed non-warning lint violation is left without an applicable fix (LintedDir.num_unfixable_lint_errors:
+    LintedDir.add counts the violations without fixes, discard_fixes_... adds those whose fixes it discards)"""
+    return any(r.paths[i].num_unfixable_lint_errors > 0 for i in range(len(r.paths)))
+
+
+@spec
+def unfixable_counters_ok(r):
+    return all(r.paths[i].num_unfixable_lint_errors >= 0 for i in range(len(r.paths)))
+
+
+@contract("sqlfluff.cli.commands:_paths_fix#unfixable", PROP)
+class paths_fix_unfixable:
+    region = ("num_unfixable = sum(p.num_unfixable_lint_errors for p in result.paths)", "if bench:")
+    region_params = ["result", "formatter", "exit_code"]
+    types = {"result": LintingResult, "formatter": SINK, "exit_code": INT, "num_unfixable": INT}
+    # (`result` names the return value in `ensures`: the run's LintingResult is handed over as the ghost output `run`)
+    ghost_out = {"exit_code_out": ("exit_code", INT), "run": ("result", LintingResult)}
+
+    def requires(result, formatter, exit_code):
+        return unfixable_counters_ok(result) and 0 <= exit_code <= 1
+
+    def ensures(formatter, exit_code, exit_code_out, run):
+        return exit_code_out == max(exit_code, 1 if unfixable_remains(run) else 0)
+
+
+# ------------------------------------------------------------------ LintingResult.discard_fixes_...: the loop over the directories
+# The call sites (_handle_unparsable) see the ASSUMED contract `discard_fixes` above (ghost counters of the CLI's queries); its
+# clause about the per-directory counter num_unfixable_lint_errors is PROVED here for the real two-line loop, from the verified
+# contract of the LintedDir method (contracts/c18.py: dir_discard, registered for C18 and C22).
+from .c18 import dir_ok  # noqa: E402
+
+
+@spec
+def dirs_ok(r):
+    return all(dir_ok(r.paths[i]) for i in range(len(r.paths)))
+
+
+@contract("sqlfluff.core.linter.linting_result:LintingResult.discard_fixes_for_lint_errors_in_files_with_tmp_or_prs_errors#counters", PROP)
+class result_discard_counters:
+    types = {"self": LintingResult}
+    modifies = ["heap:LintedDir.num_unfixable_lint_errors", "heap:ViolationRecord.fixes", "heap:SQLBaseError.fixes"]
+
+    def requires(self):
+        return dirs_ok(self)
+
+    def ensures(self, old):
+        return unfixable_only_grows(self, old)
+
+    def inv_1(self, old, _i):
+        return dirs_ok(self) and unfixable_only_grows(self, old)
+
+
+@spec
+def fix_must_fail(fix_even_unparsable, r):
+    """the property's condition for `fix` / `format` on the state of the run AFTER the unparsable gate: an unsuppressed
+    templating / parsing error blocks fixing (never with fix_even_unparsable), or an unsuppressed non-warning lint violation
+    remains unfixable"""
+    return (not fix_even_unparsable and has_live_tmp_prs(r)) or unfixable_remains(r)
+
+
+# The tail of _paths_fix (everything after the lint run) is verified as TWO ADJACENT ranges -- `#gate-and-count` up to `if bench:`
+# and `#report-and-exit` from there to the end: the postcondition of the first (exit_code in {0, 1} and the formula) is the
+# precondition of the second (which exits with that very exit_code).  One range over the whole tail is discharged as well (406
+# obligations) but takes ~80 s of symbolic execution (2^4 reporting branches x the gate / prompt branches).
+@contract("sqlfluff.cli.commands:_paths_fix#gate-and-count", PROP)
+class paths_fix_gate_and_count:
+    """the unparsable gate, the (optional) --check prompt and write, the unfixable count"""
+    region = ("exit_code = _handle_unparsable(fix_even_unparsable, exit_code, result, formatter)", "if bench:")
+    region_params = ["formatter", "fix_even_unparsable", "fixed_suffix", "check", "exit_code", "result"]
+    types = {"formatter": SINK, "fix_even_unparsable": BOOL, "fixed_suffix": TOpt(Text), "check": BOOL, "exit_code": INT,
+             "result": LintingResult, "violation_records": TList(Record), "num_fixable": INT, "num_unfixable": INT, "success": BOOL}
+    raises = {"SystemExit": None}
+    # `run`: the LintingResult in the state at the END of the range, i.e. after the gate discarded the fixes of unparsable files
+    ghost_out = {"exit_code_out": ("exit_code", INT), "run": ("result", LintingResult)}
+    modifies = ["heap:LintingResult.g_fixable_lint", "heap:LintingResult.g_unfixable_lint", "heap:LintedDir.num_unfixable_lint_errors"]
+
+    def requires(formatter, fix_even_unparsable, fixed_suffix, check, exit_code, result):
+        return (exit_code == 0 and counters_ok(result) and unfixable_counters_ok(result)
+                and result.g_fixable_lint >= 0 and result.g_unfixable_lint >= 0)
+
+    def ensures(formatter, fix_even_unparsable, fixed_suffix, check, exit_code_out, run, old):
+        return ((exit_code_out == 0 or exit_code_out == 1)
+                # exit 1 when an unsuppressed template/parse error blocks fixing or a counted lint violation remains unfixable
+                and implies(fix_must_fail(fix_even_unparsable, run), exit_code_out == 1)
+                # ... and, without --check (always for `format`), ONLY then; with --check also when the prompt is declined
+                and implies(not check and exit_code_out == 1, fix_must_fail(fix_even_unparsable, run))
+                # the gate only ever turns fixable violations into unfixable ones (nothing at all with fix_even_unparsable)
+                and unfixable_only_grows(run, old) and implies(fix_even_unparsable, unfixable_unchanged(run, old)))
+
+    def hint_on_raise(check, exc_class, exc_value):
+        # the only exit inside this range: --check, the user accepted, and writing the fixed files failed
+        return exc_class == "SystemExit" and exc_value == 1 and check
+
+
+@contract("sqlfluff.cli.commands:_paths_fix#report-and-exit", PROP)
+class paths_fix_report_and_exit:
+    """--bench / --show-lint-violations / --persist-timing output, then the exit: the exit code computed above is what the
+    process exits with (files skipped for their size: C34, contracts/c34.py `_paths_fix#exit-code`)"""
+    region = ("if bench:", None)
+    region_params = ["linter", "formatter", "bench", "show_lint_violations", "persist_timing", "exit_code", "result"]
+    types = {"linter": Linter, "formatter": SINK, "bench": BOOL, "show_lint_violations": BOOL, "persist_timing": TOpt(Text),
+             "exit_code": INT, "result": LintingResult}
+    raises = {"SystemExit": None}
+
+    def requires(linter, formatter, bench, show_lint_violations, persist_timing, exit_code, result):
+        return 0 <= exit_code <= 1 and result.files_skipped == 0
+
+    def hint_on_raise(exit_code, old, exc_class, exc_value):
+        return exc_class == "SystemExit" and exc_value == old.exit_code
+
+    def ensures(linter, formatter, bench, show_lint_violations, persist_timing, exit_code):
+        return False          # the tail always exits
+
+    def inv_1(result):        # --bench: printing the timing summary
+        return True
+
+    def inv_2(result):        # --show-lint-violations: printing the records
+        return True
+
+    def inv_3(result):
+        return True
+
+
+# ------------------------------------------------------------------ the lint run inside `with PathAndUserErrorHandler(...)`
+# __exit__ of the handler is verified above (two variants: SQLFluffUserError -> sys.exit(2); anything else passes through).  The
+# with-statement hook below is the MODEL of that method used where a verified range contains the with-statement (TRUSTED): a
+# SQLFluffUserError escaping the body becomes SystemExit(2), every other outcome is left alone.
+from pyvc.exec import ExcInfo as _ExcInfo, Outcome as _Outcome  # noqa: E402
+from pyvc.engine import K as _K  # noqa: E402
+
+
+def _handler_exit_hook(ex, st, cm, oc):
+    if oc.kind == "raise" and oc.value.cls is _UserError and not oc.value.or_subclass:
+        return [(st, _Outcome("raise", _ExcInfo(SystemExit, value=[_K(2)], line=oc.value.line)))]
+    return [(st, oc)]
+
+
+_stmts.WITH_HOOKS["PathAndUserErrorHandler"] = _handler_exit_hook
+
+
+@external("sqlfluff.cli.commands:PathAndUserErrorHandler", PROP)
+class handler_init:
+    types = {"self": Handler, "formatter": SINK}
+    params = ["self", "formatter"]
+
+    def ensures(self, formatter):
+        return True
+
+
+@external("sqlfluff.core.linter.linter:Linter.lint_paths", PROP)
+class lint_paths_ext:
+    """havoc: any result whose per-directory counters are sums of per-file counts (LintedDir.add, `#counters` below), or a
+    usage error (nonexistent path, invalid rule configuration ...: SQLFluffUserError)"""
+    types = {"self": Linter, "paths": SINK, "fix": BOOL, "ignore_non_existent_files": BOOL, "ignore_files": BOOL,
+             "processes": SINK, "apply_fixes": BOOL, "fixed_file_suffix": TOpt(Text), "fix_even_unparsable": TOpt(BOOL),
+             "retain_files": BOOL}
+    ret = LintingResult
+    raises = {"SQLFluffUserError": None}
+
+    def ensures(self, paths, fix=False, ignore_non_existent_files=False, ignore_files=True, processes=None, apply_fixes=False,
+                fixed_file_suffix="", fix_even_unparsable=False, retain_files=True, result=None):
+        return (counters_ok(result) and unfixable_counters_ok(result) and result.g_fixable_lint >= 0
+                and result.g_unfixable_lint >= 0 and result.g_templater >= 0
+                and all(result.paths[i]._num_violations >= 0 for i in range(len(result.paths))))
+
+
+@contract("sqlfluff.cli.commands:_paths_fix#lint-run-and-gate", PROP)
+class paths_fix_lint_run_and_gate:
+    """from the start of the lint run to the unparsable gate: a usage / configuration error raised while linting exits 2;
+    otherwise the exit code so far is 1 exactly when an unsuppressed templating / parsing error blocks fixing"""
+    region = ("exit_code = EXIT_SUCCESS", "violation_records = result.as_records()")
+    region_params = ["linter", "formatter", "paths", "processes", "fix_even_unparsable", "fixed_suffix", "check", "ignore_files"]
+    types = {"linter": Linter, "formatter": SINK, "paths": SINK, "processes": SINK, "fix_even_unparsable": BOOL,
+             "fixed_suffix": TOpt(Text), "check": BOOL, "ignore_files": BOOL, "exit_code": INT, "result": LintingResult}
+    raises = {"SystemExit": None}
+    ghost_out = {"exit_code_out": ("exit_code", INT), "run": ("result", LintingResult)}
+    modifies = ["heap:LintingResult.g_fixable_lint", "heap:LintingResult.g_unfixable_lint", "heap:LintedDir.num_unfixable_lint_errors"]
+
+    def ensures(linter, formatter, paths, processes, fix_even_unparsable, fixed_suffix, check, ignore_files, exit_code_out, run):
+        return (exit_code_out == (1 if (not fix_even_unparsable and has_live_tmp_prs(run)) else 0)
+                and counters_ok(run) and unfixable_counters_ok(run))
+
+    def hint_on_raise(exc_class, exc_value):
+        return exc_class == "SystemExit" and exc_value == 2
+
+
+@external("sqlfluff.core.config.fluffconfig:FluffConfig.make_child_from_path", PROP)
+class make_child_from_path:
+    types = {"self": FluffConfig, "path": Text, "require_dialect": BOOL}
+    ret = FluffConfig
+    raises = {"SQLFluffUserError": None}
+
+    def ensures(self, path, require_dialect=True, result=None):
+        return True
+
+
+@contract("sqlfluff.cli.commands:lint#lint-run", PROP)
+class lint_lint_run:
+    """the lint run of `lint` (stdin or paths) inside the error handler: a usage / configuration error raised while linting
+    exits 2, nothing else exits here"""
+    region = ("with PathAndUserErrorHandler(formatter):", "if not non_human_output:")
+    region_params = ["formatter", "paths", "stdin_filename", "lnt", "disregard_sqlfluffignores", "processes"]
+    types = {"formatter": SINK, "paths": SINK, "stdin_filename": TOpt(Text), "lnt": Linter, "disregard_sqlfluffignores": BOOL,
+             "processes": SINK, "result": LintingResult}
+    raises = {"SystemExit": None}
+    modifies = ["lnt.config"]
+
+    def ensures(formatter, paths, stdin_filename, lnt, disregard_sqlfluffignores, processes):
+        return True
+
+    def hint_on_raise(exc_class, exc_value):
+        return exc_class == "SystemExit" and exc_value == 2
+
+
+# ------------------------------------------------------------------ LintedDir.add: where the counters the exit codes read come from
+# Region: the counter updates of LintedDir.add (the record building above them -- sorting, statistics, timings -- is reporting).
+# Ghost fields of LintedFile = the answers of LintedFile.num_violations to the four queries made here (their meaning in terms of the
+# violation list is LintedFile.get_violations: C20, and the bounded matrix):
+#   g_counted             num_violations()                                   unsuppressed, non-warning violations of ANY class
+#   g_unfixable_lint      num_violations(types=SQLLintError, fixable=False)  ... lint violations without fixes
+#   g_live_tmp_prs        num_violations(types=TMP_PRS_ERROR_TYPES)          ... templating / parsing errors
+#   g_unfiltered_tmp_prs  num_violations(types=TMP_PRS_ERROR_TYPES, filter_ignore=False, filter_warning=False)   ALL of those
+from sqlfluff.core.linter.linted_file import TMP_PRS_ERROR_TYPES as _TMP_PRS  # noqa: E402
+
+LintedFileG = ref_class("sqlfluff.core.linter.linted_file:LintedFile", g_counted=INT, g_unfixable_lint=INT, g_live_tmp_prs=INT,
+                        g_unfiltered_tmp_prs=INT, timings=SINK)
+ref_class("sqlfluff.core.linter.linted_dir:LintedDir", _num_files=INT, _num_clean=INT, _num_unclean=INT, _num_violations=INT,
+          _unfiltered_tmp_prs_errors_map=_c18.TDict(Text, INT), _records=TList(Record))
+
+
+@spec
+def is_tmp_prs(types):
+    return types is not None and types is _TMP_PRS
+
+
+@external("sqlfluff.core.linter.linted_file:LintedFile.num_violations", PROP)
+class file_num_violations:
+    types = {"self": LintedFile}
+    ret = INT
+
+    def ensures(self, types=None, filter_ignore=True, filter_warning=True, fixable=None, result=0):
+        return (result >= 0
+                and implies(types is None and filter_ignore and filter_warning and fixable is None, result == self.g_counted)
+                and implies(is_lint(types) and filter_ignore and filter_warning and fixable is False, result == self.g_unfixable_lint)
+                and implies(is_tmp_prs(types) and filter_ignore and filter_warning and fixable is None, result == self.g_live_tmp_prs)
+                and implies(is_tmp_prs(types) and not filter_ignore and not filter_warning and fixable is None,
+                            result == self.g_unfiltered_tmp_prs))
+
+
+@external("sqlfluff.core.linter.linted_file:LintedFile.is_clean", PROP)
+class file_is_clean:
+    types = {"self": LintedFile}
+    ret = BOOL
+
+    def ensures(self, result):
+        return True
+
+
+@contract("sqlfluff.core.linter.linted_dir:LintedDir.add#counters", PROP)
+class dir_add_counters:
+    region = ("self._records.append(record)", "if file.timings:")
+    region_params = ["self", "file", "record"]
+    types = {"self": LintedDir, "file": LintedFile, "record": Record, "_unfiltered_tmp_prs_errors": INT}
+    modifies = ["self._records", "self._num_files", "self._num_clean", "self._num_unclean", "self._num_violations",
+                "self.num_unfiltered_tmp_prs_errors", "self._unfiltered_tmp_prs_errors_map", "self.num_tmp_prs_errors",
+                "self.num_unfixable_lint_errors"]
+
+    def ensures(self, file, record, old):
+        return (
+            # lint's exit code: _num_violations grows by the file's unsuppressed non-warning violations
+            self._num_violations == old.self._num_violations + file.g_counted
+            # fix's exit code: the unfixable counter grows by the file's unsuppressed non-warning lint violations without fixes,
+            and self.num_unfixable_lint_errors == old.self.num_unfixable_lint_errors + file.g_unfixable_lint
+            # the live template/parse error counter by the unsuppressed non-warning ones, the unfiltered one by all of them
+            and self.num_tmp_prs_errors == old.self.num_tmp_prs_errors + file.g_live_tmp_prs
+            and self.num_unfiltered_tmp_prs_errors == old.self.num_unfiltered_tmp_prs_errors + file.g_unfiltered_tmp_prs
+            and self._unfiltered_tmp_prs_errors_map[file.path] == file.g_unfiltered_tmp_prs
+            and self._num_files == old.self._num_files + 1)
+
+
+# count_tmp_prs_errors (contracts/c18.py) is verified in a C22 run too: _handle_unparsable's filter reads its two numbers
+from pyvc.dsl import CONTRACTS as _CONTRACTS  # noqa: E402
+_ctp = _CONTRACTS["sqlfluff.core.linter.linting_result:LintingResult.count_tmp_prs_errors"]
+_ctp.props = tuple(sorted(set(_ctp.props) | {PROP}))
+
+
+# ------------------------------------------------------------------ non-SMT parts (contracts/c22_bounded.py)
+from . import c22_bounded as _c22b  # noqa: E402
+
+BOUNDED = list(_c22b.BOUNDED)
+
+_CMD = "sqlfluff/cli/commands.py"
+_DIR = "sqlfluff/core/linter/linted_dir.py"
+_RES = "sqlfluff/core/linter/linting_result.py"
+MUTANTS = [
+    # --- lint: the statistics and the exit tail
+    ("stats_exit_code_off_by_one", _RES, 'all_stats["exit code"] = fail_code if counts["violations"] > 0 else success_code',
+     'all_stats["exit code"] = fail_code if counts["violations"] > 1 else success_code'),
+    ("lint_exit_codes_swapped", _CMD, 'exit_code = result.stats(EXIT_FAIL, EXIT_SUCCESS)["exit code"]',
+     'exit_code = result.stats(EXIT_SUCCESS, EXIT_FAIL)["exit code"]'),
+    ("lint_nofail_fails", _CMD, "        sys.exit(exit_code)\n    else:\n        sys.exit(EXIT_SUCCESS)",
+     "        sys.exit(exit_code)\n    else:\n        sys.exit(EXIT_FAIL)"),
+    ("warnings_counted_as_violations", _DIR, "        self._num_violations += file.num_violations()",
+     "        self._num_violations += file.num_violations(filter_warning=False)"),
+    # --- fix / format by path: the unfixable count
+    ("unfixable_counts_suppressed", _DIR, "            types=SQLLintError,\n            fixable=False,\n        )",
+     "            types=SQLLintError,\n            filter_ignore=False,\n            fixable=False,\n        )"),
+    ("paths_fix_counts_the_wrong_counter", _CMD, "    num_unfixable = sum(p.num_unfixable_lint_errors for p in result.paths)",
+     "    num_unfixable = sum(p.num_unfiltered_tmp_prs_errors for p in result.paths)"),
+    ("paths_fix_unfixable_does_not_fail", _CMD, "        exit_code = max(exit_code, EXIT_FAIL)\n\n    if bench:",
+     "        exit_code = max(exit_code, EXIT_SUCCESS)\n\n    if bench:"),
+    ("paths_fix_exit_code_dropped", _CMD, "        exit_code = max(exit_code, EXIT_FAIL)\n\n    sys.exit(exit_code)",
+     "        exit_code = max(exit_code, EXIT_FAIL)\n\n    sys.exit(EXIT_SUCCESS)"),
+    ("paths_fix_gate_always_open", _CMD, "    exit_code = _handle_unparsable(fix_even_unparsable, exit_code, result, formatter)\n\n    # NB:",
+     "    exit_code = _handle_unparsable(True, exit_code, result, formatter)\n\n    # NB:"),
+    ("discard_counts_warnings", _DIR, '                            if not v_dict.get("warning"):\n                                self.num_unfixable_lint_errors += 1',
+     "                            self.num_unfixable_lint_errors += 1"),
+    # --- the unparsable gate's filter
+    ("gate_fails_on_suppressed_errors", _CMD, "    return EXIT_FAIL if num_filtered_errors else EXIT_SUCCESS",
+     "    return EXIT_FAIL if total_errors else EXIT_SUCCESS"),
+    ("gate_counts_swapped", _RES, "        return total_errors, num_filtered_errors", "        return num_filtered_errors, total_errors"),
+    # --- fix / format by stdin
+    ("stdin_exit_drops_unfixable", _CMD, "    sys.exit(EXIT_FAIL if templater_error or unfixable_error else exit_code)",
+     "    sys.exit(EXIT_FAIL if templater_error else exit_code)"),
+    ("stdin_exit_ignores_the_gate", _CMD, "    sys.exit(EXIT_FAIL if templater_error or unfixable_error else exit_code)",
+     "    sys.exit(EXIT_FAIL if templater_error or unfixable_error else EXIT_SUCCESS)"),
+    ("stdin_any_lint_violation_fails", _CMD, "    unfixable_error = result.num_violations(types=SQLLintError, fixable=False) > 0",
+     "    unfixable_error = result.num_violations(types=SQLLintError) > 0"),
+    # --- usage / configuration errors
+    ("user_error_exits_1", _CMD, "                err=True,\n            )\n            sys.exit(EXIT_ERROR)", "                err=True,\n            )\n            sys.exit(EXIT_FAIL)"),
+    ("user_error_wrong_class", _CMD, "        if exc_type is SQLFluffUserError:", "        if exc_type is SQLBaseError:"),
+]
